@@ -295,7 +295,7 @@ func (sc *sortCtx) zero(t types.Type) string {
 	case *types.Slice:
 		return "(mkSlice 0 0 0 0)"
 	case *types.Array:
-		return "((as const " + sc.sortOf(t) + ") " + sc.zero(u.Elem()) + ")"
+		return sc.constArray(sc.sortOf(t), sc.zero(u.Elem()))
 	case *types.Struct:
 		n := sc.sortOf(t)
 		if u.NumFields() == 0 {
@@ -360,4 +360,13 @@ func (sc *sortCtx) typeInv(term string, t types.Type, depth int) []string {
 		return []string{fmt.Sprintf("(<= 0 %s)", term)}
 	}
 	return nil
+}
+
+// constArray is the array of the given sort holding elem everywhere. cvc5 accepts "as const" only over values;
+// the empty string of the uninterpreted string sort is not one, so string arrays use a declared constant.
+func (sc *sortCtx) constArray(sort, elem string) string {
+	if elem == "gs.empty" && sort == "(Array Int Str)" {
+		return "gs.zeros"
+	}
+	return "((as const " + sort + ") " + elem + ")"
 }
